@@ -382,6 +382,11 @@ impl Index for HnswIndex {
     }
 
     fn delete(&mut self, id: TupleId) {
+        // Only an entry that is stored can be tombstoned: a tombstone for an
+        // unknown identifier would count as a deleted entry forever.
+        if !self.vectors.read().iter().any(|(stored, _)| *stored == id) {
+            return;
+        }
         self.tombstones.write().insert(id);
 
         // Auto-compact when tombstone ratio exceeds 30% (#49)
